@@ -549,11 +549,11 @@ func c11BFSFrom(root []c11op, depth int, o mergeOpts) CaseResult {
 func init() {
 	modes["C11"] = ModeSpec{
 		Cases: func(t string) []Case { return mergeCases(t, mergeOpts{c11: true}) },
-		Rule: "breadth-first search over histories of Put(batch in 5-batch alphabet: partitions p/q/none, minmax key present/absent, floats, beyond-int64 values, duplicate rows) and Merge(by one of 3 differently configured engines) to the stated depth, successor = replay on fresh stores, states deduplicated by canonical form (ordered files > ordered blocks > partition, minmax, compression, row multiset); on every Merge edge: stored multiset, partition/minmax cover, 7 queries x {no prefilter, 7 prefilters} before vs after",
+		Rule:  "breadth-first search over histories of Put(batch in 5-batch alphabet: partitions p/q/none, minmax key present/absent, floats, beyond-int64 values, duplicate rows) and Merge(by one of 3 differently configured engines) to the stated depth, successor = replay on fresh stores, states deduplicated by canonical form (ordered files > ordered blocks > partition, minmax, compression, row multiset); on every Merge edge: stored multiset, partition/minmax cover, 7 queries x {no prefilter, 7 prefilters} before vs after",
 	}
 	modes["C12"] = ModeSpec{
 		Cases: func(t string) []Case { return mergeCases(t, mergeOpts{c12: true}) },
-		Rule: "same history BFS as C11; on every Merge edge each output block is decomposed into whole source blocks; combined blocks are checked against MaxRowGroupRows/MaxRowGroupBytes of the merging engine, single partition and equal minmax key sets; removed files per Merge against MaxFilesToMergePerOperation; source bytes per output against MaxFileSize",
+		Rule:  "same history BFS as C11; on every Merge edge each output block is decomposed into whole source blocks; combined blocks are checked against MaxRowGroupRows/MaxRowGroupBytes of the merging engine, single partition and equal minmax key sets; removed files per Merge against MaxFilesToMergePerOperation; source bytes per output against MaxFileSize",
 	}
 	_ = c11BFS
 }
